@@ -93,6 +93,7 @@ Monotone == [][MonotoneStep]_vars
 KindsAll == {"pipe", "valve", "flow_control", "press_control", "pump", "heat_exchanger",
              "heat_consumer", "circ_pump_mass", "circ_pump_pressure"}
 KindsCore == {"pipe", "valve", "flow_control", "press_control", "heat_consumer", "circ_pump_pressure"}
+KindsPipe == {"pipe"}
 KindsCtl == {"pipe", "press_control", "flow_control", "circ_pump_mass"}
 NKindsAll == {<<"ext_grid", "p">>, <<"ext_grid", "t">>, <<"sink", "">>}
 NKindsTherm == {<<"ext_grid", "p">>, <<"ext_grid", "t">>, <<"ext_grid", "pt">>, <<"sink", "">>}
